@@ -119,6 +119,10 @@ def pairs(ck, code, L):
         # one speaker: both numbers use the same regional / orthographic variants (the thorough tier frees them)
         assm += [fa_[k_] == fb_[k_] for k_ in fa_]
         ck.outside.append('quick: the two numbers of a pair use the same spelling variants (regional tens, hyphenation, ...)')
+        if code == 'fr':
+            # standard (vigesimal) French only; septante/huitante/octante/nonante are in the thorough tier
+            assm += [z3.Not(fa_[k_]) for k_ in ('sept', 'huit', 'oct', 'non')]
+            ck.outside.append('quick: French regional tens (septante, huitante, octante, nonante)')
     slots = sa + [[(use_conj, L.conj), (z3.Not(use_conj), None)]] + sb
     tslots, nwords, ne = token_slots(slots)
     ex = make_executor(ck, assm)
